@@ -1,5 +1,10 @@
 import Genq.Props.C06
 open Genq.Types
+open Genq.Codec
 #print axioms C06_unique_keys
 #print axioms C06_direct_field_wins
 #print axioms C06_json_name_is_the_key
+#print axioms C06_roundtrip_model
+#print axioms C06_roundtrip_special_model
+#print axioms C06_marshaled_object_covers_every_field
+#print axioms C06_roundtrip_needs_coherence_witness
